@@ -280,7 +280,7 @@ pub fn run(a: &Args, shard: u64, shards: u64) -> Report {
 
 fn run_inner(a: &Args, shard: u64, shards: u64) -> Report {
     let mut rep = Report::new();
-    let n: u64 = if a.miri { 24 } else if a.thorough { 400_000 } else { 12_000 };
+    let n: u64 = if a.miri { 24 } else if a.thorough { 400_000 } else { 120_000 };
     for j in 0..n {
         if j % shards != shard {
             continue;
@@ -321,7 +321,7 @@ fn run_inner(a: &Args, shard: u64, shards: u64) -> Report {
             ]));
         }
     }
-    let ns: u64 = if a.miri { 10 } else if a.thorough { 300_000 } else { 10_000 };
+    let ns: u64 = if a.miri { 10 } else if a.thorough { 300_000 } else { 100_000 };
     for j in 0..ns {
         if j % shards != shard {
             continue;
